@@ -275,7 +275,7 @@ def Stmt.toVal : Stmt → Val
   | .delete t wh ob lm => .node "ASTDeleteStatement" [("table_name", t.toVal), ("where_clause", whereVal wh),
       ("order_by_clause", orderVal ob), ("limit_clause", limitVal lm)]
   | .createTable c => c.toVal
-  | .createTableAs t q => .node "ASTCreateTableAsStatement" [("table_name", t.toVal), ("select_statement", q.toVal)]
+  | .createTableAs t ine q => .node "ASTCreateTableAsStatement" [("table_name", t.toVal), ("if_not_exists", .bool ine), ("select_statement", q.toVal)]
   | .dropTable b t => .node "ASTDropTableStatement" [("if_exists", .bool b), ("table_name", t.toVal)]
   | .set c => .node "ASTSetStatement" [("config", c.toVal)]
   | .analyze t p fc cm ns => .node "ASTAnalyzeTableStatement" [("table_name", t.toVal), ("partition", ofOpt partitionVal p),
